@@ -77,7 +77,7 @@ def gen_leaf(rng, mode, style, const=None):
         return arr
     if mode in ("I16", "I32", "U8"):
         dt = DTYPES[mode]
-        hi = {"I16": 30000, "I32": 2000000, "U8": 255}[mode]
+        hi = {"I16": 32767, "I32": 2 ** 31 - 1, "U8": 255}[mode]       # full positive range: sums of four need > 24 / 32 bits
         arr = rng.randint(1, hi, (256, 256)).astype(dt)
         if style == 1:
             arr[rng.random_sample((256, 256)) < 0.4] = 0
